@@ -5,11 +5,13 @@ package pure
 import (
 	"encoding/json"
 	"fmt"
+	"strings"
 	"testing"
 	"time"
 
 	"github.com/google/mtail/internal/metrics"
 	"github.com/google/mtail/internal/metrics/datum"
+	"github.com/google/mtail/verif/hx"
 	"github.com/google/mtail/verif/vstat"
 	"pgregory.net/rapid"
 )
@@ -29,6 +31,10 @@ type c10Metric struct {
 
 type c10Case struct {
 	Metrics []c10Metric `json:"metrics"`
+	// ViaProgram: the store is filled by a compiled program (declarations with
+	// `limit N`, `settime`, assignments, `del ... after D`) fed generated lines,
+	// instead of through the metric API (Int gauges only; expiry 1s, 1h or 24h)
+	ViaProgram bool `json:"via_program,omitempty"`
 }
 
 type c10Snap struct {
@@ -51,11 +57,88 @@ func runC10(c c10Case) *vstat.Failure {
 	return vstat.Catch(func() *vstat.Failure { return runC10x(c) })
 }
 
+// c10ViaProgram builds the store by compiling a program and feeding it lines.
+func c10ViaProgram(c c10Case, base time.Time) (*metrics.Store, []*metrics.Metric, *vstat.Failure) {
+	durs := map[int64]string{int64(time.Second): "1s", int64(time.Hour): "1h", int64(24 * time.Hour): "24h"}
+	var sb strings.Builder
+	for i, cm := range c.Metrics {
+		fmt.Fprintf(&sb, "gauge m%d by k", i)
+		if cm.Limit > 0 {
+			fmt.Fprintf(&sb, " limit %d", cm.Limit)
+		}
+		sb.WriteString("\n")
+	}
+	for i := range c.Metrics {
+		fmt.Fprintf(&sb, "/^s%d (?P<k>\\w+) (?P<ts>\\d+) (?P<v>-?\\d+)$/ {\n  settime($ts)\n  m%d[$k] = $v\n}\n", i, i)
+		for _, d := range []string{"1s", "1h", "24h"} {
+			fmt.Fprintf(&sb, "/^e%d %s (?P<k>\\w+)$/ {\n  del m%d[$k] after %s\n}\n", i, d, i, d)
+		}
+	}
+	obj, err := hx.Compile("prog", sb.String())
+	if err != nil {
+		return nil, nil, vstat.Failf("compile-rejected", "%v\n%s", err, sb.String())
+	}
+	v := hx.NewVM("prog", obj, false, nil)
+	e0 := hx.RuntimeErrors("prog")
+	for i, cm := range c.Metrics {
+		for j, cd := range cm.Data {
+			ts := base.Unix() - cd.AgeS
+			if cd.Bumped {
+				v.ProcessLogLine(nil, hx.Line("f", fmt.Sprintf("s%d l%d %d %d", i, j, ts-360000, cd.Val-1)))
+			}
+			v.ProcessLogLine(nil, hx.Line("f", fmt.Sprintf("s%d l%d %d %d", i, j, ts, cd.Val)))
+			if cd.ExpNs != 0 {
+				exp := cd.ExpNs
+				if exp == 1 {
+					exp = int64(time.Second)
+				}
+				v.ProcessLogLine(nil, hx.Line("f", fmt.Sprintf("e%d %s l%d", i, durs[exp], j)))
+			}
+		}
+	}
+	if d := hx.RuntimeErrors("prog") - e0; d != 0 {
+		return nil, nil, vstat.Failf("runtime-error", "%d runtime errors while filling the store: %s", d, v.RuntimeErrorString())
+	}
+	s := metrics.NewStore()
+	ms := make([]*metrics.Metric, len(c.Metrics))
+	for _, m := range obj.Metrics {
+		var i int
+		if _, err := fmt.Sscanf(m.Name, "m%d", &i); err != nil || i >= len(ms) {
+			continue
+		}
+		if m.Limit != c.Metrics[i].Limit {
+			return nil, nil, vstat.Failf("declared-limit", "metric %s declared with limit %d has Limit %d", m.Name, c.Metrics[i].Limit, m.Limit)
+		}
+		if err := s.Add(m); err != nil {
+			return nil, nil, vstat.Failf("bad-case", "%v", err)
+		}
+		ms[i] = m
+	}
+	for i, m := range ms {
+		if m == nil {
+			return nil, nil, vstat.Failf("bad-case", "metric m%d missing from the compiled object", i)
+		}
+		if len(m.LabelValues) != len(c.Metrics[i].Data) {
+			return nil, nil, vstat.Failf("program-did-not-build-the-store", "metric m%d holds %d data, %d were written", i, len(m.LabelValues), len(c.Metrics[i].Data))
+		}
+	}
+	return s, ms, nil
+}
+
 func runC10x(c c10Case) *vstat.Failure {
 	s := metrics.NewStore()
 	base := time.Now()
 	var ms []*metrics.Metric
+	if c.ViaProgram {
+		var f *vstat.Failure
+		if s, ms, f = c10ViaProgram(c, base); f != nil {
+			return f
+		}
+	}
 	for i, cm := range c.Metrics {
+		if c.ViaProgram {
+			break
+		}
 		typ := []metrics.Type{metrics.Int, metrics.Float, metrics.String}[cm.Typ%3]
 		m := metrics.NewMetric(fmt.Sprintf("m%d", i), "prog", metrics.Gauge, typ, "k")
 		m.Limit = cm.Limit
@@ -289,6 +372,13 @@ func TestC10(t *testing.T) {
 						nontriv = true
 					}
 				}
+			}
+			if rapid.IntRange(0, 3).Draw(rt, "viaprogram") == 0 {
+				c.ViaProgram = true
+				for i := range c.Metrics {
+					c.Metrics[i].Typ = 0
+				}
+				st.Class("store-built-by-compiled-program")
 			}
 			st.Eval()
 			if nontriv {
